@@ -51,10 +51,10 @@ theorem C10_dtype_at_creation {st : State} {name : Str} :
           st.props ++ [{ name := name, id := st.next, dtype := d, vals := [] }]) := by
   constructor
   · intro v vs h
-    rcases createProperty_cases st name (.list (v :: vs)) with ⟨e, h'⟩ | ⟨dt, n, vals, d, hplan, hd, _, _, h'⟩
+    rcases createProperty_cases st name (.list (v :: vs)) with ⟨e, h'⟩ | ⟨dt, n, vals, d, hplan, hd, _, _, hres, h'⟩
     · rw [h'] at h; simp at h
-    · rw [h'] at h ⊢
-      simp only at h ⊢
+    · rw [h']
+      simp only
       simp only [createPlan] at hplan
       cases hv : getDtype v with
       | error e => simp [hv] at hplan
@@ -68,11 +68,11 @@ theorem C10_dtype_at_creation {st : State} {name : Str} :
           subst h1 h3
           simp [resolveDtype] at hd
           subst hd
-          obtain ⟨cells, hs, hres⟩ := setValues_ok (p := newProp st name d' n) h
+          obtain ⟨cells, hs, hres'⟩ := setValues_ok (p := newProp st name d' n) hres
           refine ⟨d', cells, rfl, getDtype_main hv, hs, ?_⟩
-          rw [hres]; rfl
+          rw [hres']; rfl
   · intro d h
-    rcases createProperty_cases st name (.type (.np d)) with ⟨e, h'⟩ | ⟨dt, n, vals, d', hplan, hd, _, _, h'⟩
+    rcases createProperty_cases st name (.type (.np d)) with ⟨e, h'⟩ | ⟨dt, n, vals, d', hplan, hd, _, _, _, h'⟩
     · rw [h'] at h; simp at h
     · rw [h']
       simp [createPlan] at hplan
@@ -168,12 +168,11 @@ theorem C10_reads_change_nothing (st : State) (k : PKey) (k' : Key) :
 /-! ## refusals -/
 
 /-- **TypeError ⇒ nothing changed.**  Whatever operation raises TypeError — in fact any exception
-other than ValueError / OverflowError, the two that h5py / numpy raise after the dataset was
-already resized — leaves the section exactly as it was: every property with its values, dtype and
-attributes, every child section, and nothing new. -/
+other than ValueError (which h5py raises for a text value with an embedded NUL *after* the dataset
+was resized, see `C10_any_refusal_unchanged_counterexample`) — leaves the section exactly as it
+was: every property with its values, dtype and attributes, every child section, and nothing new. -/
 theorem C10_refused_unchanged {st : State} (hr : Reachable st) {op : Op} (hwf : op.WF = true) {e : Err}
-    (herr : (step st op).2 = .error e) (h1 : e ≠ .valueError) (h2 : e ≠ .overflowError) :
-    (step st op).1 = st := by
+    (herr : (step st op).2 = .error e) (h1 : e ≠ .valueError) : (step st op).1 = st := by
   have liftErr : ∀ r : State × Except Err Unit, (lift r).2 = .error e → r.2 = .error e := by
     intro r h
     simp only [lift] at h
@@ -181,8 +180,8 @@ theorem C10_refused_unchanged {st : State} (hr : Reachable st) {op : Op} (hwf : 
     | ok u => simp [hr2] at h
     | error e' => simp [hr2] at h; rw [h]
   cases op with
-  | create name inp => exact createProperty_refused (liftErr _ herr) h1 h2
-  | set k inp => exact onProp_refused hr.inv herr fun p hp => setValues_refused' hp h1 h2
+  | create name inp => exact createProperty_refused (liftErr _ herr)
+  | set k inp => exact onProp_refused hr.inv herr fun p hp => setValues_refused hp h1
   | extend k inp => exact onProp_refused hr.inv herr fun p hp => extendValues_refused hwf hp h1
   | clear k => exact onProp_refused hr.inv herr fun p hp => by simp at hp
   | setAttr k a v => exact onProp_refused hr.inv herr fun p hp => setAttr_refused hp
@@ -206,15 +205,31 @@ theorem C10_refused_unchanged {st : State} (hr : Reachable st) {op : Op} (hwf : 
       split
       · rename_i hc
         simp only [hc] at herr'
-        exact createProperty_refused herr' h1 h2
+        exact createProperty_refused herr'
       · rename_i hc
         simp only [hc] at herr'
         cases hf : findProp st (.key (.name key)) with
         | error e' => rfl
         | ok p =>
           simp only [hf] at herr' ⊢
-          rw [setValues_refused' herr' h1 h2]
+          rw [setValues_refused herr' h1]
           exact putProp_self hr.inv.ids (findProp_mem hf)
+
+/-- The stronger statement "whatever a call raises, the section is as it was" -/
+def C10_any_refusal_unchanged : Prop :=
+  ∀ st : State, Reachable st → ∀ op : Op, op.WF = true → ∀ e : Err,
+    (step st op).2 = .error e → (step st op).1 = st
+
+/-- … is false of the code (open known finding `C10-nul-text-after-resize`): assigning a text with
+an embedded NUL to a property holding `("x", "y")` raises ValueError (h5py cannot store it in a
+variable-length string) after the dataset was resized to one element — `("x",)` is left.
+`C10_refused_unchanged` is the part that holds: every exception class but ValueError. -/
+theorem C10_any_refusal_unchanged_counterexample : ¬ C10_any_refusal_unchanged := by
+  intro h
+  have hst : Reachable (run State.init [.create ['t'] (.list [.pyStr ['x'], .pyStr ['y']])]) :=
+    ⟨_, by decide, rfl⟩
+  have := h _ hst (.set (.key (.name ['t'])) (.list [.pyStr ['a', Char.ofNat 0, 'b']])) rfl .valueError rfl
+  exact absurd this (by decide)
 
 /-- **The type check precedes resize and write.**  When `_check_new_value_types` refuses, that very
 error is what `extend_values` and the `values` setter raise and the property is untouched.  (Two
@@ -385,13 +400,13 @@ theorem C10_dict_setitem_getitem {st : State} (hr : Reachable st) {name : Str} {
     have hc' : propsContains st (.name name) = false := by simpa using hc
     rw [hset] at hres hinv' ⊢
     simp only [hc', Bool.not_false, if_true] at hres hinv' ⊢
-    rcases createProperty_cases st name (.list ws) with ⟨e, h'⟩ | ⟨dt, n, vals, d, hplan, hd, _, _, h'⟩
+    rcases createProperty_cases st name (.list ws) with ⟨e, h'⟩ | ⟨dt, n, vals, d, hplan, hd, _, _, hsv, h'⟩
     · rw [h'] at hres; simp at hres
     · have hvals := createPlan_of_list hplan
       subst hvals
-      rw [h'] at hres hinv' ⊢
-      simp only at hres hinv' ⊢
-      obtain ⟨cells, hs, hp'⟩ := setValues_ok hres
+      rw [h'] at hinv' ⊢
+      simp only at hinv' ⊢
+      obtain ⟨cells, hs, hp'⟩ := setValues_ok hsv
       refine ⟨cells, hs, ?_⟩
       have hmem : (setValues (newProp st name d n) (.list ws)).1 ∈
           (st.props ++ [(setValues (newProp st name d n) (.list ws)).1]) := by simp
@@ -468,8 +483,8 @@ example : (run State.init demoOps).props.map (fun p => (p.name, p.dtype, p.vals)
     [(['i'], .int64, [.i 7, .i 9]), (['k'], .string, [.s ['ä']])] := by decide
 example : (step (run State.init (demoOps.take 1)) (demoOps.getD 1 .len)).2 = .error .typeError := by rfl
 example : getitem (run State.init demoOps) (.name ['k']) = .ok (.scalar (.s ['ä'])) := by rfl
-example : (step (run State.init demoOps) (.set (.idx 0) (.list [.pyInt 9223372036854775808]))).2 =
-    .error .overflowError := by rfl
+example : (step (run State.init demoOps) (.set (.idx 0) (.list [.pyInt 9223372036854775808]))) =
+    (run State.init demoOps, .error .overflowError) := by rfl
 example : (step State.init (.create ['p'] (.ndarray (.num .int32) [2] [.i 1, .i 2]))) =
     (State.init, .error .typeError) := by rfl
 example : ((step State.init (.create ['p'] (.ndarray (.num .int64) [2] [.i 1, .i 2]))).1.props.map (·.vals)) =
